@@ -17,7 +17,8 @@ MANIFEST = {
             "comparison of the parallel factors with a 1-thread elimination using the same row order; a hook-placement audit of the "
             "current source (every spin_locks[] store has its RELEASE event next to it and follows pivotL / factor_snode; DONE "
             "likewise) ties the events the monitor reads to the stores the workers see, and a pivot-reuse stream (usepr = YES, "
-            "several workers) exercises the release site under the option where the pivot step decides nothing.",
+            "several workers) exercises the release site under the option where the pivot step decides nothing; every event log is also "
+            "replayed through the extracted ColRelease model (each log must be an execution of the guarded protocol).",
     "note": "The scheduler (C04 note) and pxgstrf_mark_busy_descends are RE-TRANSLATED from the current source on every run and proved equal to the models (SchedTie.v; BusyGen.v / BusyTie.v: c03_source_mark_busy_is_model, c03_source_busy_columns_marked). PARTIAL: of the column-level worker protocol, pxgstrf_mark_busy_descends is modelled and proved (c03_busy_columns_marked: "
             "the busy snapshot covers every column of every unfinished descendant panel; tied by comparing every snapshot of every "
             "worker of real runs with the extracted model); panel_dfs skipping, pruning races and no-write-while-read on subscript "
